@@ -1270,3 +1270,33 @@ M("C06-benign-raw-literal-local", "C06", "src/cppparser/cppPreprocessor.cxx",
   "    result.u.expr = new CPPExpression(CPPExpression::raw_literal(str, raw_instance));",
   "    CPPInstance *lit_op = raw_instance;\n    result.u.expr = new CPPExpression(CPPExpression::raw_literal(str, lit_op));",
   benign=True)
+
+# ---------------------------------------------------------------- R15.18 / R15.19 (F-C15n, F-C15o)
+M("C15-typedef-target-cpptype-unchecked", "C15", "src/interrogate/interfaceMakerPythonNative.cxx",
+  "    if (wrapped_itype._cpptype == nullptr) {\n      // The typedef names a type that is not in the database (for instance a\n      // class template that was never instantiated); there is no class to\n      // alias.\n      return;\n    }\n",
+  "",
+  expect="R15.18|InterfaceMakerPythonNative::write_sub_module|wrapped_itype._cpptype")
+M("C15-base-cpptype-unchecked", "C15", "src/interrogate/interfaceMakerPythonNative.cxx",
+  "      if (is_cpp_type_legal(d_itype._cpptype)) {\n        if (!isExportThisRun(d_itype._cpptype)) {",
+  "      if (!interrogate_type_is_nested(d_type_Index)) {\n        if (!isExportThisRun(d_itype._cpptype)) {",
+  expect="R15.18|InterfaceMakerPythonNative::write_module_class|d_itype._cpptype")
+M("C15-benign-typedef-target-test-form", "C15", "src/interrogate/interfaceMakerPythonNative.cxx",
+  "    if (wrapped_itype._cpptype == nullptr) {\n      // The typedef names",
+  "    if (!wrapped_itype._cpptype) {\n      // The typedef names",
+  benign=True)
+M("C15-unbounded-array-assignable", "C15", "src/interrogate/typeManager.cxx",
+  "    return type->as_array_type()->_bounds != nullptr;",
+  "    return true;",
+  expect="R15.19|TypeManager::is_assignable|ST_array|needs-a-bound")
+M("C15-setter-without-assignable-test", "C15", "src/interrogate/interrogateBuilder.cxx",
+  "    if (TypeManager::is_assignable(element_type)) {\n      FunctionIndex setter =",
+  "    if (!TypeManager::is_const(element_type)) {\n      FunctionIndex setter =",
+  expect="R15.19|InterrogateBuilder::scan_element|get_setter|behind-is_assignable")
+M("C15-array-bound-deref-unguarded", "C15", "src/interrogate/interrogateBuilder.cxx",
+  "  if (cpptype->_bounds == nullptr) {\n    // This indicates an unsized array.\n    itype._array_size = -1;\n  } else {",
+  "  if (cpptype->_element_type == nullptr) {\n    // This indicates an unsized array.\n    itype._array_size = -1;\n  } else {",
+  expect="R15.19|InterrogateBuilder::define_array_type")
+M("C15-benign-array-bound-test-swapped", "C15", "src/interrogate/typeManager.cxx",
+  "    return type->as_array_type()->_bounds != nullptr;",
+  "    return nullptr != type->as_array_type()->_bounds;",
+  benign=True)
